@@ -464,6 +464,8 @@ def main(tier=None, replay=None):
                        "palindromy + the triple-jump identity (Yoshida/Suzuki), trusted",
                        "long-time boundedness of the energy error is not decided (theorem on symmetric symplectic "
                        "compositions trusted, not measured)"]
+    import c16long
+    c16long.run(ck)      # long-time energy boundedness, plain and event-enabled paths (Contracts.tla)
     return ck.finish()
 
 
